@@ -31,8 +31,8 @@ extern "C"
 {
 #endif /* __cplusplus */
 
-extern unsigned mma_verbose;
-extern unsigned ccsa_verbose;
+extern THREADLOCAL unsigned mma_verbose;
+extern THREADLOCAL unsigned ccsa_verbose;
 
 nlopt_result mma_minimize(unsigned n, nlopt_func f, void *f_data,
 			  unsigned m, nlopt_constraint *fc,
